@@ -65,6 +65,14 @@ class K3Adapter(object):
             comparison=r['tally'].as_dict(),
             input_distribution={k: int(v) for k, v in sorted(hist.items())},
         )
+        if prop == 'C15':
+            need15 = ['refused:subA:ValueError', 'refused:wdA:ValueError', 'refused:create:ValueError', 'refused:subP:ValueError',
+                      'refused:subP:KeyError', 'refused:wdP:ValueError', 'refused:wdP:KeyError', 'refused:submit:KeyError',
+                      'refused:pfsub:ValueError', 'refused:pfwd:ValueError', 'refused:pfmark:ValueError', 'refused:pftxn:ValueError',
+                      'refused:q:ValueError', 'refused:q:KeyError']
+            miss15 = [k for k in need15 if hist.get(k, 0) == 0]
+            if miss15 and r['stats']['cases'] - r['stats']['corpus_cases'] >= 100 and not findings and not mism:
+                raise common.Infra('generator missed the refusal kinds %s' % miss15)
         required = ['update:open', 'update:closed', 'update:boundary-instant', 'update:weekend', 'fill',
                     'position:closed-to-zero', 'position:flipped-through-zero', 'update:closed-with-pending',
                     'update:mixed-sides-batch']
@@ -168,12 +176,18 @@ class CaseAdapter(object):
         m = self.mod()
         findings = [dict(f, case=r['cases'][f['case_index']]) for f in r['oracle']]
         mism = [dict(x, case=r['cases'][x['case_index']]) for x in r['mismatches']]
-        nontrivial = set()
-        for c, real in zip(r['cases'], r['reals']):
-            if m.nontrivial(c, real):
-                nontrivial.add(case_hash(c))
-        cov = dict(evaluations=int(r['stats']['cases']), distinct_nontrivial=len(nontrivial), rule=self.rule,
-                   samples=[r['cases'][-1]] if r['cases'] else [], traces_validated_against_impl=int(r['stats']['cases']),
+        if r.get('reals') is None:
+            n_nontrivial = int(r['stats'].get('nontrivial_cases', 0))
+            sample = [r['sample']] if r.get('sample') is not None else (r['cases'][-1:] if r['cases'] else [])
+        else:
+            nontrivial = set()
+            for c, real in zip(r['cases'], r['reals']):
+                if m.nontrivial(c, real):
+                    nontrivial.add(case_hash(c))
+            n_nontrivial = len(nontrivial)
+            sample = [r['cases'][-1]] if r['cases'] else []
+        cov = dict(evaluations=int(r['stats']['cases']), distinct_nontrivial=n_nontrivial, rule=self.rule,
+                   samples=sample, traces_validated_against_impl=int(r['stats']['cases']),
                    corpus_cases=int(r['stats']['corpus_cases']), comparison=r['tally'].as_dict(),
                    input_distribution={k: int(v) for k, v in sorted(r['hist'].items())})
         for k, v in r['stats'].items():
@@ -297,7 +311,7 @@ class K7Adapter(CaseAdapter):
     module_name = 'k7'
     label = 'K7 (harness/k7*.py)'
     N = dict(quick={'C08': 250, 'C14': 200, 'C07': 200, 'C18': 8, 'C09': 100, 'C16': 100, 'C19': 120},
-             thorough={'C08': 3000, 'C14': 2000, 'C07': 1200, 'C18': 60, 'C09': 800, 'C16': 800, 'C19': 1000})
+             thorough={'C08': 20000, 'C14': 12000, 'C07': 6000, 'C18': 60, 'C09': 6000, 'C16': 6000, 'C19': 8000})
     SEARCH = dict(quick=150, thorough=800)
     rule = ('seeded whole backtests on synthetic CSV markets written to a temporary directory (1-4 assets, gaps, missing cells, '
             'assets starting late; weekly/daily/end-of-month/buy-and-hold schedules; long-only and long/short sizing; zero and '
